@@ -1057,4 +1057,485 @@ theorem noIdle_partial (env : Env) (f0 : Uid → Fields) (res0 : List (Option Na
     subst hout
     simpa [outOf] using this
 
+/-! ### WBS order: paths, parent chains -/
+
+/-- the `children` function of an environment -/
+abbrev kidsF (env : Env) : Uid → List Uid := fun u => (env.info u).children
+
+/-- a path of `k` edges -/
+inductive PathLen (next : Uid → List Uid) : Uid → Uid → Nat → Prop
+  | refl (a : Uid) : PathLen next a a 0
+  | head {a b c : Uid} {k : Nat} : b ∈ next a → PathLen next b c k → PathLen next a c (k + 1)
+
+theorem PathLen.tail {next : Uid → List Uid} {a b c : Uid} {k : Nat} (h : PathLen next a b k) (hc : c ∈ next b) :
+    PathLen next a c (k + 1) := by
+  induction h with
+  | refl a => exact PathLen.head hc (PathLen.refl c)
+  | head hab _ ih => exact PathLen.head hab (ih hc)
+
+theorem PathLen.trans {next : Uid → List Uid} {a b c : Uid} {j k : Nat} (h1 : PathLen next a b j)
+    (h2 : PathLen next b c k) : PathLen next a c (j + k) := by
+  induction h1 with
+  | refl a => simpa using h2
+  | head hab _ ih =>
+    have := PathLen.head hab (ih h2)
+    rw [show ∀ (x y : Nat), x + 1 + y = x + y + 1 by omega]
+    exact this
+
+theorem pathLen_of_RTC {next : Uid → List Uid} {a c : Uid} (h : RTC (fun x y => y ∈ next x) a c) :
+    ∃ k, PathLen next a c k := by
+  induction h with
+  | refl => exact ⟨0, PathLen.refl _⟩
+  | tail _ hr ih =>
+    obtain ⟨k, hk⟩ := ih
+    exact ⟨k + 1, hk.tail hr⟩
+
+/-- a successful enumeration with fuel `f` bounds the length of the paths -/
+theorem descF_pathLen (next : Uid → List Uid) : ∀ (f : Nat) (a : Uid) (l : List Uid), descF next f a = some l →
+    ∀ c k, PathLen next a c k → k < f := by
+  intro f
+  induction f with
+  | zero => intro a l h; simp [descF] at h
+  | succ f ih =>
+    intro a l h c k hp
+    cases hp with
+    | refl => omega
+    | head hab hbc =>
+      simp only [descF, Option.map_eq_some_iff] at h
+      obtain ⟨ll, hll, _⟩ := h
+      obtain ⟨b', _, hg⟩ := mapM_some_mem _ _ _ hll _ hab
+      simp only [Option.map_eq_some_iff] at hg
+      obtain ⟨r', hr', _⟩ := hg
+      have := ih _ r' hr' _ _ hbc
+      omega
+
+theorem ancestorsOf_step (env : Env) : ∀ (f : Nat) (y b u : Uid), b ∈ y :: ancestorsOf env f y →
+    (env.info b).parent = some u → u ∈ ancestorsOf env (f + 1) y := by
+  intro f
+  induction f with
+  | zero =>
+    intro y b u hb hp
+    simp only [ancestorsOf, List.mem_cons, List.not_mem_nil, or_false] at hb
+    subst hb
+    simp [ancestorsOf, hp]
+  | succ f ih =>
+    intro y b u hb hp
+    rcases List.mem_cons.1 hb with rfl | hb
+    · simp [ancestorsOf, hp]
+    · cases hpy : (env.info y).parent with
+      | none => simp [ancestorsOf, hpy] at hb
+      | some p =>
+        simp only [ancestorsOf, hpy] at hb
+        have := ih p b u hb hp
+        rw [ancestorsOf, hpy]
+        exact List.mem_cons_of_mem _ this
+
+theorem ancestorsOf_mono (env : Env) : ∀ (f : Nat) (y x : Uid), x ∈ ancestorsOf env f y → x ∈ ancestorsOf env (f + 1) y := by
+  intro f
+  induction f with
+  | zero => intro y x h; simp [ancestorsOf] at h
+  | succ f ih =>
+    intro y x h
+    cases hpy : (env.info y).parent with
+    | none => simp [ancestorsOf, hpy] at h
+    | some p =>
+      simp only [ancestorsOf, hpy] at h
+      rw [ancestorsOf, hpy]
+      rcases List.mem_cons.1 h with rfl | h
+      · exact List.mem_cons_self
+      · exact List.mem_cons_of_mem _ (ih p x h)
+
+theorem ancestorsOf_mono_le (env : Env) (y x : Uid) : ∀ (f g : Nat), f ≤ g → x ∈ ancestorsOf env f y →
+    x ∈ ancestorsOf env g y := by
+  intro f g hfg
+  induction hfg with
+  | refl => exact id
+  | step _ ih => exact fun h => ancestorsOf_mono env _ y x (ih h)
+
+/-- a `children` path between members is mirrored by the parent pointers (`childrenOK`) -/
+theorem mem_ancestors_of_path (env : Env) (mem : List Uid) (hm : members env = some mem)
+    (hch : ∀ t c, t ∈ mem → c ∈ (env.info t).children → (env.info c).parent = some t) :
+    ∀ (u y : Uid) (k : Nat), PathLen (kidsF env) u y k → u ∈ mem → u ∈ y :: ancestorsOf env k y := by
+  intro u y k h
+  induction h with
+  | refl a => intro _; exact List.mem_cons_self
+  | head hab _ ih =>
+    intro hu
+    have hb := ih (members_children env mem hm _ hu _ hab)
+    exact List.mem_cons_of_mem _ (ancestorsOf_step env _ _ _ _ hb (hch _ _ hu hab))
+
+/-- every member has a `children` path from a root, and the enumeration of that root succeeded -/
+theorem member_path (env : Env) (mem : List Uid) (hm : members env = some mem) (u : Uid) (hu : u ∈ mem) :
+    ∃ r l j, descF (kidsF env) (env.n + 1) r = some l ∧ PathLen (kidsF env) r u j := by
+  obtain ⟨r, _, l, hl, hul⟩ := (members_spec env mem hm).2 u hu
+  simp only [subtreeF, Option.map_eq_some_iff] at hl
+  obtain ⟨d, hd, rfl⟩ := hl
+  rcases List.mem_cons.1 hul with rfl | hud
+  · exact ⟨u, d, 0, hd, PathLen.refl _⟩
+  · obtain ⟨j, hj⟩ := pathLen_of_RTC (descF_sound _ _ _ _ hd u hud).toRTC
+    exact ⟨r, d, j, hd, hj⟩
+
+/-- a free leaf: nobody above it (along `children`, among the members) carries a link -/
+theorem free_anc (env : Env) (mem : List Uid) (hm : members env = some mem)
+    (hch : ∀ t c, t ∈ mem → c ∈ (env.info t).children → (env.info c).parent = some t)
+    (y : Uid) (hy : freeLeaf env y = true) (u : Uid) (hu : u ∈ mem)
+    (h : RTC (fun a b => b ∈ (env.info a).children) u y) :
+    (env.info u).preds = [] ∧ (env.info u).succs = [] := by
+  obtain ⟨k, hk⟩ := pathLen_of_RTC (next := kidsF env) h
+  obtain ⟨r, l, j, hd, hj⟩ := member_path env mem hm u hu
+  have hlt := descF_pathLen _ _ _ _ hd _ _ (hj.trans hk)
+  have hmem : u ∈ y :: ancestorsOf env (env.n + 1) y := by
+    rcases List.mem_cons.1 (mem_ancestors_of_path env mem hm hch u y k hk hu) with h | h
+    · exact h ▸ List.mem_cons_self
+    · exact List.mem_cons_of_mem _ (ancestorsOf_mono_le env y u k _ (by omega) h)
+  simp only [freeLeaf, Bool.and_eq_true, List.all_eq_true] at hy
+  have := hy.2 u hmem
+  simpa [List.isEmpty_iff] using this
+
+/-! ### WBS order: order of two elements in a list -/
+
+theorem pair_sublist_append {x y : Uid} {l1 l2 : List Uid} (h : List.Sublist [x, y] (l1 ++ l2)) :
+    List.Sublist [x, y] (l1) ∨ (x ∈ l1 ∧ y ∈ l2) ∨ List.Sublist [x, y] (l2) := by
+  obtain ⟨a, b, hab, ha, hb⟩ := List.sublist_append_iff.1 h
+  cases a with
+  | nil =>
+    simp only [List.nil_append] at hab
+    subst hab
+    exact Or.inr (Or.inr hb)
+  | cons a0 a' =>
+    cases a' with
+    | nil =>
+      simp only [List.cons_append, List.nil_append, List.cons.injEq] at hab
+      obtain ⟨rfl, rfl⟩ := hab
+      exact Or.inr (Or.inl ⟨List.singleton_sublist.1 ha, List.singleton_sublist.1 hb⟩)
+    | cons a1 a'' =>
+      simp only [List.cons_append, List.cons.injEq] at hab
+      obtain ⟨rfl, rfl, hnil⟩ := hab
+      have : a'' = [] ∧ b = [] := by simpa using hnil.symm
+      rw [this.1] at ha
+      exact Or.inl ha
+
+theorem pair_sublist_mem {x y : Uid} {l : List Uid} (h : List.Sublist [x, y] (l)) : x ∈ l ∧ y ∈ l :=
+  ⟨h.subset (by simp), h.subset (by simp)⟩
+
+theorem pair_sublist_of_lt (l : List Uid) (i j : Nat) (hij : i < j) (hj : j < l.length) :
+    List.Sublist [l[i]'(by omega), l[j]] l := by
+  have hi : i < l.length := by omega
+  have h1 : l = l.take i ++ l[i] :: l.drop (i + 1) := by
+    rw [← List.drop_eq_getElem_cons hi, List.take_append_drop]
+  have h2 : l[j] ∈ l.drop (i + 1) := by
+    have hlen : j - (i + 1) < (l.drop (i + 1)).length := by simp; omega
+    have := List.getElem_mem hlen
+    rw [List.getElem_drop] at this
+    simpa [show i + 1 + (j - (i + 1)) = j by omega] using this
+  have h3 : List.Sublist [l[i], l[j]] (l.take i ++ l[i] :: l.drop (i + 1)) := by
+    have : [l[i], l[j]] = [] ++ l[i] :: [l[j]] := rfl
+    rw [this]
+    exact List.Sublist.append (List.nil_sublist _) ((List.singleton_sublist.2 h2).cons_cons _)
+  have h4 : List.Sublist (l.take i ++ l[i] :: l.drop (i + 1)) l := by
+    rw [← h1]; exact List.Sublist.refl _
+  exact h3.trans h4
+
+theorem idxOf_ext {d l : List Uid} {x : Uid} (hx : x ∈ d) : (d ++ l).idxOf x = d.idxOf x := by
+  rw [List.idxOf_append, if_pos hx]
+
+theorem idxOf_new {d l : List Uid} {y : Uid} (hy : y ∉ d) : d.length ≤ (d ++ l).idxOf y := by
+  rw [List.idxOf_append, if_neg hy]
+  omega
+
+/-! ### WBS order: free leaves become done in WBS order -/
+
+section order
+variable (env : Env) (mem : List Uid) (hm : members env = some mem)
+  (hmemb : ∀ t, (env.info t).member = true ↔ t ∈ mem)
+  (hl : env.linksSym)
+  (hch : ∀ t c, t ∈ mem → c ∈ (env.info t).children → (env.info c).parent = some t)
+
+include hm hmemb hl hch in
+/-- a pass on a task that is not above a free leaf does not place that leaf -/
+theorem free_untouched (y : Uid) (hy : freeLeaf env y = true) (fuel : Nat) (stk : List Uid) (σ : SS) (t : Uid)
+    (m : Time) (σ' : SS) (ht : t ∈ mem) (hnt : ¬ RTC (fun a b => b ∈ (env.info a).children) t y)
+    (hyd : y ∉ σ.done) (h : fwdPass env fuel stk σ t m = .ok σ') : y ∉ σ'.done := by
+  refine fwdPass_inv2 env (fun σ => y ∉ σ.done)
+    (fun t _ => t ∈ mem ∧ ¬ RTC (fun a b => b ∈ (env.info a).children) t y) ?_ ?_ ?_ fuel stk σ t m σ' ⟨ht, hnt⟩ hyd h
+  · intro σ1 σ σ' t m hq hi _ _ htd _ hpl
+    obtain ⟨_, hd⟩ := fwdPlace_ext env σ σ' t _ htd hpl
+    rw [hd]
+    intro hc
+    rcases List.mem_append.1 hc with hc | hc
+    · exact hi hc
+    · simp only [List.mem_singleton] at hc
+      subst hc
+      exact hq.2 RTC.refl
+  · intro t c σ1 m hq hc
+    exact ⟨members_children env mem hm t hq.1 c hc, fun hr => hq.2 (RTC.head hc hr)⟩
+  · intro t p m hq hp hpm
+    have hpmem : p ∈ mem := (hmemb p).1 (hpm.trans ((hmemb t).2 hq.1))
+    refine ⟨hpmem, fun hr => ?_⟩
+    have := (free_anc env mem hm hch y hy p hpmem hr).2
+    have hts := (hl p t).1 hp
+    rw [this] at hts
+    cases hts
+
+/-- after a pass over a list of tasks all their subtrees are done -/
+theorem passList_subtrees_done (fuel : Nat) (stk : List Uid) (m : Time) (ts : List Uid) (g : Nat)
+    (ls : List (List Uid)) (σ σ' : SS) (hcl : DoneClosed env σ)
+    (hp : passList (fun σ c => fwdPass env fuel stk σ c m) σ ts = .ok σ')
+    (hls : ts.mapM (fun c => (descF (kidsF env) g c).map (fun r => c :: r)) = some ls) :
+    DoneClosed env σ' ∧ ∀ z ∈ ls.flatten, z ∈ σ'.done := by
+  have hcl' : DoneClosed env σ' :=
+    passList_inv (DoneClosed env) _ _ (fun a x b _ ha hh => fwdPass_doneClosed env _ _ _ _ _ _ ha hh) _ _ hcl hp
+  have hdone : ∀ c ∈ ts, c ∈ σ'.done :=
+    passList_all_done _ _ (fun a x b _ hh => fwdPass_ext env _ _ _ _ _ _ hh) _ _ hp
+  refine ⟨hcl', ?_⟩
+  intro z hz
+  obtain ⟨b, hb, hzb⟩ := List.mem_flatten.1 hz
+  obtain ⟨c, hc, hg⟩ := mapM_some_mem_inv _ _ _ hls b hb
+  simp only [Option.map_eq_some_iff] at hg
+  obtain ⟨r, hr, rfl⟩ := hg
+  rcases List.mem_cons.1 hzb with rfl | hzr
+  · exact hdone _ hc
+  · exact hcl'.desc (hdone c hc) (descF_sound _ _ _ _ hr z hzr)
+
+/-- what a pass establishes about the free leaves of a listing `S`: those that were not done before are done
+    afterwards, in the order of `S` -/
+def OrderedNew (env : Env) (σ σ' : SS) (S : List Uid) : Prop :=
+  ∀ x y, freeLeaf env x = true → freeLeaf env y = true → List.Sublist [x, y] S → y ∉ σ.done →
+    x ∈ σ'.done ∧ y ∈ σ'.done ∧ σ'.done.idxOf x < σ'.done.idxOf y
+
+theorem order_ext {σ1 σ' : SS} (he : Ext σ1 σ') {x y : Uid} (hx : x ∈ σ1.done) (hy : y ∈ σ1.done)
+    (hlt : σ1.done.idxOf x < σ1.done.idxOf y) :
+    x ∈ σ'.done ∧ y ∈ σ'.done ∧ σ'.done.idxOf x < σ'.done.idxOf y := by
+  obtain ⟨l, hl, _⟩ := he.done
+  refine ⟨he.done_sub hx, he.done_sub hy, ?_⟩
+  rw [hl, idxOf_ext hx, idxOf_ext hy]
+  exact hlt
+
+theorem order_new {σ1 σ' : SS} (he : Ext σ1 σ') {x y : Uid} (hx : x ∈ σ1.done) (hy : y ∉ σ1.done)
+    (hy' : y ∈ σ'.done) : x ∈ σ'.done ∧ y ∈ σ'.done ∧ σ'.done.idxOf x < σ'.done.idxOf y := by
+  obtain ⟨l, hl, _⟩ := he.done
+  refine ⟨he.done_sub hx, hy', ?_⟩
+  rw [hl, idxOf_ext hx]
+  have h1 := List.idxOf_lt_length_of_mem hx
+  have h2 := idxOf_new (l := l) hy
+  omega
+
+include hm hmemb hl hch in
+/-- from single passes to a pass over a list of siblings (or roots) -/
+theorem order_list (fuel : Nat)
+    (hP : ∀ (stk : List Uid) (σ : SS) (t : Uid) (m : Time) (σ' : SS) (g : Nat) (l : List Uid),
+      fwdPass env fuel stk σ t m = .ok σ' → t ∈ mem → DoneClosed env σ → descF (kidsF env) g t = some l →
+      (t :: l).Nodup → OrderedNew env σ σ' (t :: l)) :
+    ∀ (ts : List Uid) (stk : List Uid) (m : Time) (g : Nat) (ls : List (List Uid)) (σ σ' : SS),
+      passList (fun σ c => fwdPass env fuel stk σ c m) σ ts = .ok σ' → (∀ c ∈ ts, c ∈ mem) → DoneClosed env σ →
+      ts.mapM (fun c => (descF (kidsF env) g c).map (fun r => c :: r)) = some ls → ls.flatten.Nodup →
+      OrderedNew env σ σ' ls.flatten := by
+  intro ts
+  induction ts with
+  | nil =>
+    intro stk m g ls σ σ' _ _ _ hls _ x y _ _ hsub _
+    simp only [List.mapM_nil] at hls
+    cases hls
+    cases hsub
+  | cons c cs ih =>
+    intro stk m g ls σ σ' hp hmemts hcl hls hnd x y hx hy hsub hyd
+    obtain ⟨b, bs, hb, hbs, rfl⟩ := (mapM_some_cons _ c cs ls).mp hls
+    simp only [Option.map_eq_some_iff] at hb
+    obtain ⟨lc, hlc, rfl⟩ := hb
+    simp only [passList, bind, Except.bind] at hp
+    split at hp
+    · cases hp
+    · rename_i σ1 h1
+      have hcmem := hmemts c List.mem_cons_self
+      obtain ⟨e1, hc1⟩ := fwdPass_ext env _ _ _ _ _ _ h1
+      have hcl1 := fwdPass_doneClosed env _ _ _ _ _ _ hcl h1
+      have e2 : Ext σ1 σ' := passList_ext _ (fun a z b hh => (fwdPass_ext env _ _ _ _ _ _ hh).1) _ _ _ hp
+      have hsub1 : ∀ z ∈ c :: lc, z ∈ σ1.done := by
+        intro z hz
+        rcases List.mem_cons.1 hz with rfl | hz
+        · exact hc1
+        · exact hcl1.desc hc1 (descF_sound _ _ _ _ hlc z hz)
+      simp only [List.flatten_cons] at hnd hsub
+      obtain ⟨hnd1, hnd2, hdisj⟩ := List.nodup_append.1 hnd
+      -- a free leaf listed later is not placed by the pass on `c`
+      have hlater : y ∈ bs.flatten → y ∉ σ1.done := by
+        intro hyb
+        refine free_untouched env mem hm hmemb hl hch y hy _ _ _ _ _ _ hcmem ?_ hyd h1
+        intro hr
+        have : y ∈ c :: lc := by
+          rcases RTC.cases_eq_or_TC hr with rfl | htc
+          · exact List.mem_cons_self
+          · exact List.mem_cons_of_mem _ (descF_complete _ _ _ _ hlc y htc)
+        exact hdisj y this y hyb rfl
+      obtain ⟨_, hall⟩ := passList_subtrees_done env _ _ _ cs g bs σ1 σ' hcl1 hp hbs
+      rcases pair_sublist_append hsub with h | ⟨hx1, hy2⟩ | h
+      · obtain ⟨a1, a2, a3⟩ := hP _ _ _ _ _ _ _ h1 hcmem hcl hlc hnd1 x y hx hy h hyd
+        exact order_ext e2 a1 a2 a3
+      · exact order_new e2 (hsub1 x hx1) (hlater hy2) (hall y hy2)
+      · exact ih stk m g bs σ1 σ' hp (fun z hz => hmemts z (List.mem_cons_of_mem _ hz)) hcl1 hbs hnd2 x y hx hy h
+          (hlater (pair_sublist_mem h).2)
+
+end order
+
+section order2
+variable (env : Env) (mem : List Uid) (hm : members env = some mem)
+  (hmemb : ∀ t, (env.info t).member = true ↔ t ∈ mem)
+  (hl : env.linksSym)
+  (hch : ∀ t c, t ∈ mem → c ∈ (env.info t).children → (env.info c).parent = some t)
+
+include hm hmemb hl hch in
+/-- one pass places the free leaves of its subtree in WBS order -/
+theorem order_pass : ∀ (fuel : Nat) (stk : List Uid) (σ : SS) (t : Uid) (m : Time) (σ' : SS) (g : Nat) (l : List Uid),
+    fwdPass env fuel stk σ t m = .ok σ' → t ∈ mem → DoneClosed env σ → descF (kidsF env) g t = some l →
+    (t :: l).Nodup → OrderedNew env σ σ' (t :: l) := by
+  intro fuel
+  induction fuel with
+  | zero => intro stk σ t m σ' g l h; cases h
+  | succ fuel ih =>
+    intro stk σ t m σ' g l h htm hcl hd hnd x y hx hy hsub hyd
+    have hymem := (pair_sublist_mem hsub).2
+    rw [fwdPass_eq_gPass] at h
+    rcases gPass_succ_cases env _ _ _ _ fuel stk σ t m σ' h with ⟨hdone, rfl⟩ | ⟨hdone, hs, σ1, σ2, h1, h2, h3⟩
+    · -- already done: so is the whole subtree
+      exfalso
+      apply hyd
+      rcases List.mem_cons.1 hymem with rfl | hyl
+      · exact hdone
+      · exact hcl.desc hdone (descF_sound _ _ _ _ hd y hyl)
+    · simp only [← fwdPass_eq_gPass] at h1 h2
+      cases g with
+      | zero => simp [descF] at hd
+      | succ g =>
+        simp only [descF, Option.map_eq_some_iff] at hd
+        obtain ⟨ls, hls, rfl⟩ := hd
+        -- `x` is a leaf, so it is not `t`
+        have hxy : List.Sublist [x, y] ls.flatten := by
+          rcases List.sublist_cons_iff.1 hsub with h | ⟨r, hr, hr'⟩
+          · exact h
+          · exfalso
+            simp only [List.cons.injEq] at hr
+            obtain ⟨rfl, rfl⟩ := hr
+            have hyl : y ∈ ls.flatten := List.singleton_sublist.1 hr'
+            have hleaf : (env.info x).children = [] := by
+              simp only [freeLeaf, isLeaf, Bool.and_eq_true, List.isEmpty_iff] at hx
+              exact hx.1
+            simp only [kidsF, hleaf, List.mapM_nil, Option.pure_def, Option.some.injEq] at hls
+            subst hls
+            cases hyl
+        have hyl := (pair_sublist_mem hxy).2
+        have htc : TC (fun a b => b ∈ (env.info a).children) t y :=
+          descF_sound (kidsF env) (g + 1) t ls.flatten (by simp only [descF, hls]; rfl) y hyl
+        have hpreds := (free_anc env mem hm hch y hy t htm htc.toRTC).1
+        simp only [hpreds, passList, pure, Except.pure, Except.ok.injEq] at h1
+        subst h1
+        have hon := order_list env mem hm hmemb hl hch fuel ih (env.info t).children (t :: stk) _ g ls σ σ2 h2
+          (fun c hc => members_children env mem hm t htm c hc) hcl hls (List.nodup_cons.1 hnd).2 x y hx hy hxy hyd
+        have e1 : ExtS (t :: stk) σ σ2 := passList_extS _ _ _
+          (fun a z b _ hh => (fwdPass_extS env fuel (t :: stk) a z _ b hh).1) _ _ h2
+        have ht2 : t ∉ σ2.done := e1.2 t List.mem_cons_self hdone
+        obtain ⟨e3, _⟩ := fwdPlace_ext env σ2 σ' t _ ht2 h3
+        exact order_ext e3 hon.1 hon.2.1 hon.2.2
+
+end order2
+
+/-! ### WBS order: the ledger is sorted by the order in which tasks became done -/
+
+structure SortedI (σ : SS) : Prop where
+  nodup : σ.done.Nodup
+  rowsDone : ∀ r ∈ σ.rows, r.task ∈ σ.done
+  sorted : σ.rows.Pairwise (fun r r' => σ.done.idxOf r.task ≤ σ.done.idxOf r'.task)
+
+theorem SortedI.place {env : Env} {σ σ' : SS} {t : Uid} {v : Time} (hi : SortedI σ) (ht : t ∉ σ.done)
+    (h : fwdPlace env σ t v = .ok σ') : SortedI σ' := by
+  obtain ⟨new, σm, hst, rfl, _⟩ := fwdPlace_stage env σ σ' t v h
+  have hd : (markDone σm t).done = σ.done ++ [t] := by simp [markDone, hst.done]
+  have hr : (markDone σm t).rows = σ.rows ++ new.map (mkRow (env.info t).resource t) := hst.rows
+  refine ⟨?_, ?_, ?_⟩
+  · rw [hd]
+    exact List.nodup_append.2 ⟨hi.nodup, by simp, fun a ha b hb hab => by
+      simp only [List.mem_singleton] at hb; exact ht (hb ▸ hab ▸ ha)⟩
+  · intro r hr'
+    rw [hr] at hr'
+    rw [hd]
+    rcases List.mem_append.1 hr' with h | h
+    · exact List.mem_append_left _ (hi.rowsDone r h)
+    · obtain ⟨p, _, rfl⟩ := List.mem_map.1 h
+      simp [mkRow]
+  · rw [hr, hd]
+    refine List.pairwise_append.2 ⟨?_, ?_, ?_⟩
+    · refine List.Pairwise.imp_of_mem ?_ hi.sorted
+      intro a b ha hb hab
+      rw [idxOf_ext (hi.rowsDone a ha), idxOf_ext (hi.rowsDone b hb)]
+      exact hab
+    · rw [List.pairwise_map]
+      exact List.pairwise_of_forall (fun _ _ => Nat.le_refl _)
+    · intro a ha b hb
+      obtain ⟨p, _, rfl⟩ := List.mem_map.1 hb
+      rw [idxOf_ext (hi.rowsDone a ha)]
+      have h1 := List.idxOf_lt_length_of_mem (hi.rowsDone a ha)
+      have h2 := idxOf_new (l := [t]) ht
+      simp only [mkRow]
+      omega
+
+/-- `C08_order`, for a forest (`membersNodup`, `childrenOK`) with links stored on both ends -/
+theorem order_holds (env : Env) (f0 : Uid → Fields) (res0 : List (Option Nat × Cal)) (o : Output)
+    (hf : env.flagsOK) (hl : env.linksSym) (hch : env.childrenOK) (hn : env.membersNodup)
+    (h : forwardCalc env f0 res0 = .ok o) : c08Order env o = true := by
+  obtain ⟨mem, σ, hm, hp, hout⟩ := fwdRun_ok env f0 res0 o (forwardCalc_run env f0 res0 o h)
+  have hml := memberList_eq env mem hm
+  have hmemb : ∀ t, (env.info t).member = true ↔ t ∈ mem := fun t => by rw [← hml]; exact hf t
+  have hch' : ∀ t c, t ∈ mem → c ∈ (env.info t).children → (env.info c).parent = some t := by
+    intro t c ht hc; exact hch t c (by rw [hml]; exact ht) hc
+  have hnd : mem.Nodup := by rw [← hml]; exact hn
+  -- the ledger is sorted by `done`
+  have hS : SortedI σ := by
+    refine passList_inv SortedI _ _ ?_ _ _ ⟨List.nodup_nil, (fun r hr => by cases hr), List.Pairwise.nil⟩ hp
+    intro a x b _ ha hh
+    exact fwdPass_inv env SortedI (fun _ => True) (fun σ σ' t v _ hi ht _ hpl => hi.place ht hpl)
+      (fun _ _ _ _ => trivial) (fun _ _ _ _ _ => trivial) _ _ _ _ _ _ trivial ha hh
+  -- free leaves are done in WBS order
+  have hmem' := hm
+  unfold members at hmem'
+  simp only [Option.map_eq_some_iff] at hmem'
+  obtain ⟨ls, hls, hflat⟩ := hmem'
+  have hON : OrderedNew env { f := prepare env f0 mem, rows := [], done := [], res := res0, reads := 1 } σ mem := by
+    have := order_list env mem hm hmemb hl hch' (env.n + 1)
+      (order_pass env mem hm hmemb hl hch' (env.n + 1)) env.roots [] env.bound (env.n + 1) ls _ σ hp
+      (members_root env mem hm) (by intro x hx; cases hx) hls (by rw [hflat]; exact hnd)
+    rw [hflat] at this
+    exact this
+  subst hout
+  unfold c08Order
+  simp only [List.all_eq_true, List.mem_range, List.mem_filter, Bool.or_eq_true, Bool.not_eq_true',
+    decide_eq_false_iff_not, decide_eq_true_eq, hml, and_imp]
+  intro i hi j hj
+  by_cases hij : i < j
+  · right
+    intro a ha hta b hb htb
+    have hxi : ((mem.filter (freeLeaf env)).getD i 0) = (mem.filter (freeLeaf env))[i] := by simp [hi]
+    have hxj : ((mem.filter (freeLeaf env)).getD j 0) = (mem.filter (freeLeaf env))[j] := by simp [hj]
+    have hra : σ.rows.getD a default = σ.rows[a] := by simp [ha]
+    have hrb : σ.rows.getD b default = σ.rows[b] := by simp [hb]
+    rw [hxi, hra] at hta
+    rw [hxj, hrb] at htb
+    have hta' : σ.rows[a].task = (mem.filter (freeLeaf env))[i] := by simpa using hta
+    have htb' : σ.rows[b].task = (mem.filter (freeLeaf env))[j] := by simpa using htb
+    have hsub : List.Sublist [(mem.filter (freeLeaf env))[i], (mem.filter (freeLeaf env))[j]] mem :=
+      (pair_sublist_of_lt _ i j hij hj).trans List.filter_sublist
+    have hfi : freeLeaf env (mem.filter (freeLeaf env))[i] = true :=
+      (List.mem_filter.1 (List.getElem_mem hi)).2
+    have hfj : freeLeaf env (mem.filter (freeLeaf env))[j] = true :=
+      (List.mem_filter.1 (List.getElem_mem hj)).2
+    obtain ⟨_, _, hlt⟩ := hON _ _ hfi hfj hsub (by simp)
+    rw [← hta', ← htb'] at hlt
+    apply Classical.byContradiction
+    intro hab
+    rcases Nat.lt_or_ge b a with hba | hba
+    · have := (List.pairwise_iff_getElem.1 hS.sorted) b a hb ha hba
+      omega
+    · have : a = b := by omega
+      subst this
+      omega
+  · left; exact hij
+
 end Pj.C08
